@@ -1,9 +1,9 @@
-SPECIFICATION Spec
+SPECIFICATION SpecD
 CONSTANTS
   N = 3
   Names = {"refs/heads/a", "refs/heads/b"}
   MaxPacks = 3
-  MaxLen = 5
+  MaxLen = 6
 INVARIANT ReachablePreserved
 INVARIANT TypeOK
 PROPERTY OnlyGcRemoves
